@@ -173,14 +173,17 @@ def check_segment(np, gcd, g, p0, p1, a0=None, t0=None, a1=None, t1=None):
     for q in range(len(clat)):
         if abs(float(sv[0][q]) - 7.5) > 1e-12:
             c05.append(f'piece {q} carries state value {float(sv[0][q])!r}; the segment\'s start point has 7.5')
+        # the cell(s) of an axis that contain a value: closed cells [edge k, edge k + 1], k = 0 .. number of edges - 2
+        def cells_of(edges, v):
+            return [float(edges[k]) for k in range(len(edges) - 1) if float(edges[k]) <= v <= float(edges[k + 1])]
         if alts is not None:
-            wa = int(np.searchsorted(g.grid_altitudes, a0) - 1)
-            if abs(float(calt[q]) - float(g.grid_altitudes[wa])) > 1e-9:
-                c05.append(f'piece {q} in altitude cell {float(calt[q])!r}; the start point ({a0!r}) lies in the cell starting at {float(g.grid_altitudes[wa])!r}')
+            ok = cells_of(g.grid_altitudes, a0)
+            if not any(abs(float(calt[q]) - w) <= 1e-9 for w in ok):
+                c05.append(f'piece {q} in altitude cell {float(calt[q])!r}; the start point ({a0!r}) lies in the cell starting at {ok}')
         if times is not None:
-            wt = int(np.searchsorted(g.grid_times, t0) - 1)
-            if abs(float(ctime[q]) - float(g.grid_times[wt])) > 1e-9:
-                c05.append(f'piece {q} in time cell {float(ctime[q])!r}; the start point ({t0!r}) lies in the cell starting at {float(g.grid_times[wt])!r}')
+            ok = cells_of(g.grid_times, t0)
+            if not any(abs(float(ctime[q]) - w) <= 1e-9 for w in ok):
+                c05.append(f'piece {q} in time cell {float(ctime[q])!r}; the start point ({t0!r}) lies in the cell starting at {ok}')
     return c04[:2], c05[:3], dict(clat=clat, clon=clon, calt=calt, ctime=ctime, sv=sv[0], iv=iv[0])
 
 
@@ -293,6 +296,34 @@ def run_families(payload):
                 p1 = (p1[0], p0[1])
             a, b, _ = check_segment(np, gcd, gg, p0, p1)
             note(f'{nlat} x {nlon} grid, segment ' + fmt(p0) + ' -> ' + fmt(p1), a, b)
+    # 2b. points on the outermost grid lines: the lowest and highest latitude / longitude line, the first and last altitude and time edge
+    if only in (None, 'outer-lines'):
+        go = make_grid(np, Gridder, 4, 4, -40, 40, -40, 40, alts=[0.0, 3000.0, 9000.0, 13000.0], times=[0.0, 100.0, 200.0, 400.0])
+        LO = [rad(v) for v in (-40, -35, -20, 0, 15, 40)]
+        outer = [(a, b) for a in LO for b in LO if abs(abs(a) - rad(40)) < 1e-12 or abs(abs(b) - rad(40)) < 1e-12]
+        inner = [(a, b) for a in LO for b in LO]
+        pairs = [(p, q) for p in outer for q in inner] + [(q, p) for p in outer for q in inner]
+        if quick:
+            pairs = rnd.sample(pairs, 300)
+        for p0, p1 in pairs:
+            cases += 1
+            a0, a1 = rnd.choice([0.0, 10.0, 3000.0, 13000.0]), rnd.choice([0.0, 5000.0, 13000.0])
+            t0, t1 = rnd.choice([0.0, 50.0, 100.0, 400.0]), rnd.choice([0.0, 150.0, 400.0])
+            a, b, _ = check_segment(np, gcd, go, p0, p1, a0, t0, a1, t1)
+            note('segment with a point on an outermost grid line ' + fmt(p0) + f' alt {a0} t {t0} -> ' + fmt(p1) + f' alt {a1} t {t1}', a, b)
+    # 3a. almost along a parallel / a meridian: the coordinate that 'does not change' changes by 1e-12 .. 1e-7 rad
+    if only in (None, 'nearly-straight'):
+        gn = make_grid(np, Gridder, 4, 6, -40, 40, -90, 90)
+        for _ in range(60 if quick else 1500):
+            cases += 1
+            eps = rnd.choice([1e-12, 1e-10, 1e-9, 3e-9, 1e-8, 1e-7]) * rnd.choice([1, -1])
+            la, lo = rad(rnd.uniform(-38, 38)), rad(rnd.uniform(-88, 88))
+            if rnd.random() < 0.5:
+                p0, p1 = (la, lo), (la + eps, rad(rnd.uniform(-88, 88)))
+            else:
+                p0, p1 = (la, lo), (rad(rnd.uniform(-38, 38)), lo + eps)
+            a, b, _ = check_segment(np, gcd, gn, p0, p1)
+            note('nearly straight segment ' + repr(tuple(math.degrees(v) for v in p0)) + ' -> ' + repr(tuple(math.degrees(v) for v in p1)), a, b)
     # 3b. the poles: zero-length segments that still sweep longitude cells, and segments ending on a pole
     if only in (None, 'poles'):
         gp = make_grid(np, Gridder, 6, 12, -90, 90, -180, 180)
@@ -328,5 +359,5 @@ def run_families(payload):
             note('repeated point on the antimeridian', a, b)
     return dict(cases=cases, c04=c04, c05=c05,
                 bound='4 x 4 grid quarter-cell lattice segments (2.7e3 sampled / all 5.1e4), 250 / 6000 lattice paths of 3..4 points with altitude and time axes, '
-                      '400 / 20000 random segments on 1..7 x 1..7 grids, segments on and into the poles of a global 6 x 12 grid, 500 / all 1800 antimeridian crossings on a global 4 x 8 grid',
+                      '400 / 20000 random segments on 1..7 x 1..7 grids, 60 / 1500 segments that leave a parallel or meridian by 1e-12 .. 1e-7 rad, segments on and into the poles of a global 6 x 12 grid, 500 / all 1800 antimeridian crossings on a global 4 x 8 grid',
                 rule='points on interior grid lines, corners, along-line, westward / southward, repeated points, one antimeridian crossing; points on the outermost grid lines excluded')
